@@ -8,8 +8,16 @@ import (
 
 	"github.com/blevesearch/bleve/v2"
 	"github.com/blevesearch/bleve/v2/mapping"
+	"github.com/blevesearch/bleve/v2/search/searcher"
 	"pgregory.net/rapid"
 )
+
+// setHeapTakeover sets searcher.DisjunctionHeapTakeover and returns the old value.
+func setHeapTakeover(n int) int {
+	old := searcher.DisjunctionHeapTakeover
+	searcher.DisjunctionHeapTakeover = n
+	return old
+}
 
 type Corpus struct {
 	Cfg     Config
